@@ -53,7 +53,10 @@ RULE = (
     'float32 array, float64 array or list and half of the files use tenths '
     '(not float32-representable); one source in eight starts on a date '
     'below 1400000 (YYDDD, years before 1400); one source in eight also holds a standard-dimension '
-    'variable with an over-long (unlistable) name; mfopen: the file is cut '
+    'variable with an over-long (unlistable) name; updatemeta() and '
+    'getVarlist(update=True) applied in place to the current in-memory file '
+    '(getVarlist not on a source whose TFLAG is out of step by '
+    'construction); mfopen: the file is cut '
     'into 2-3 contiguous pieces along TSTEP/LAY/ROW/COL, the pieces are '
     'saved as netCDF files and re-assembled through pncmfopen(paths, '
     'stackdim, format=ioapi) or ioapi.open_mfdataset(*paths, stackdim) '
@@ -339,6 +342,8 @@ class Machine(object):
                  if k not in datavars and k != 'TFLAG']
         return dict(dims=dims, datavars=datavars, allvars=list(
             f.variables.keys()), extra=extra, on_disk=self.on_disk,
+            tflag_stale=(not self.returned and I.prep_kind(self.prep) in (
+                'var-added', 'no-tflag')),
             nlays=dims.get('LAY', 0))
 
     def judge(self, f, step, klass):
@@ -523,7 +528,19 @@ def _mfopen(f, a):
     return res
 
 
+def _updatemeta(f, a):
+    f.updatemeta()
+    return f
+
+
+def _getvarlist(f, a):
+    f.getVarlist(update=True)
+    return f
+
+
 EXEC = {
+    'updatemeta': _updatemeta,
+    'getvarlist': _getvarlist,
     'mfopen': _mfopen,
     'copy': lambda f, a: f.copy(),
     'slice': _slice,
@@ -572,11 +589,21 @@ def draw_step(draw, s, avoid):
            'mask', 'stack', 'stack', 'interp', 'interp']
     if dv:
         ops += ['subset', 'subset', 'eval', 'eval', 'rename', 'rename']
+    if not s['on_disk']:
+        # in-place synchronisation, public and the tail of every other
+        # operation: plain f.updatemeta(); f.getVarlist(update=True) (which
+        # does not promise to rebuild TFLAG, so not on a source whose TFLAG
+        # is out of step by construction)
+        ops += ['updatemeta']
+        if not s.get('tflag_stale'):
+            ops += ['getvarlist']
     mfdims = [d for d in ('TSTEP', 'LAY', 'LAY', 'ROW', 'COL')
               if dims.get(d, 0) >= 2]
     if mfdims and not s['on_disk']:
         ops += ['mfopen']
     op = draw(st.sampled_from(ops))
+    if op in ('updatemeta', 'getvarlist'):
+        return [op, {}]
     if op == 'mfopen':
         # disk route of stack: pieces cut along one dimension (contiguous,
         # in order, so level edges abut), saved and re-assembled by
